@@ -250,23 +250,35 @@ func genOptions(r *Repo) (string, error) {
 			name, name, strings.Join(items, ", "))
 	}
 
-	// ---- WithClientIPResolver: guards and values
+	// ---- WithClientIPResolver: what each target's resolver is after the option ran, by cases on the argument.
+	// The option body is evaluated symbolically for the four cases (target router|route) x (resolver nil|non-nil):
+	// conditions over `resolver`, `s.router`, `s.route` and nil with == != && || !, if/else, assignments to
+	// s.<target>.clientip whose value is `resolver`, the no-resolver value (noClientIPResolver{}, possibly converted) or
+	// cmp.Or over those. Anything else is reported as "unknown: <text>". The fact is the effect, not the wording.
 	if fd := r.FuncDecl("options.go", "", "WithClientIPResolver"); fd != nil {
-		var items []string
+		var lit *ast.FuncLit
 		ast.Inspect(fd.Body, func(m ast.Node) bool {
-			if is, ok := m.(*ast.IfStmt); ok {
-				for _, st := range is.Body.List {
-					if as, ok := st.(*ast.AssignStmt); ok && len(as.Lhs) == 1 && len(as.Rhs) == 1 {
-						if tgt, fld, ok := optFieldOf(as.Lhs[0]); ok {
-							items = append(items, fmt.Sprintf("(%s, %s, %s, %s)", leanStr(tgt), leanStr(fld), leanStr(r.Text(is.Cond)), leanStr(strings.Join(strings.Fields(r.Text(as.Rhs[0])), " "))))
-						}
-					}
-				}
+			if fl, ok := m.(*ast.FuncLit); ok && lit == nil {
+				lit = fl
 			}
 			return true
 		})
+		var items []string
+		if lit != nil {
+			for _, tgt := range []string{"route", "router"} {
+				for _, isNil := range []bool{true, false} {
+					ev := &resolverEval{r: r, target: tgt, resolverNil: isNil, value: "unchanged"}
+					ev.block(lit.Body.List)
+					arg := "non-nil"
+					if isNil {
+						arg = "nil"
+					}
+					items = append(items, fmt.Sprintf("(%s, %s, %s)", leanStr(tgt), leanStr(arg), leanStr(ev.value)))
+				}
+			}
+		}
 		sort.Strings(items)
-		fmt.Fprintf(&sb, "def assigns_WithClientIPResolver : List (String × String × String × String) := [%s]\n", strings.Join(items, ", "))
+		fmt.Fprintf(&sb, "/-- (target, argument, resolver of the target after WithClientIPResolver(argument) ran) -/\ndef effect_WithClientIPResolver : List (String × String × String) := [%s]\n", strings.Join(items, ", "))
 	} else {
 		return "", fmt.Errorf("WithClientIPResolver not found")
 	}
@@ -398,4 +410,170 @@ func nilCheckIf(r *Repo, x *ast.IfStmt) bool {
 		return true
 	})
 	return found
+}
+
+// resolverEval evaluates the body of the WithClientIPResolver option for one target and one shape of the argument.
+type resolverEval struct {
+	r           *Repo
+	target      string // "router" or "route": which of s.router / s.route is non-nil
+	resolverNil bool
+	value       string // "unchanged", "resolver", "none", or "unknown: …"
+	done        bool
+}
+
+// cond: 1 true, 0 false, -1 not understood
+func (ev *resolverEval) cond(e ast.Expr) int {
+	switch x := e.(type) {
+	case *ast.ParenExpr:
+		return ev.cond(x.X)
+	case *ast.UnaryExpr:
+		if x.Op.String() == "!" {
+			if v := ev.cond(x.X); v >= 0 {
+				return 1 - v
+			}
+		}
+		return -1
+	case *ast.BinaryExpr:
+		switch x.Op.String() {
+		case "&&":
+			a, b := ev.cond(x.X), ev.cond(x.Y)
+			if a == 0 || b == 0 {
+				return 0
+			}
+			if a == 1 && b == 1 {
+				return 1
+			}
+			return -1
+		case "||":
+			a, b := ev.cond(x.X), ev.cond(x.Y)
+			if a == 1 || b == 1 {
+				return 1
+			}
+			if a == 0 && b == 0 {
+				return 0
+			}
+			return -1
+		case "==", "!=":
+			l, rr := ev.r.Text(x.X), ev.r.Text(x.Y)
+			if l == "nil" {
+				l, rr = rr, l
+			}
+			if rr != "nil" {
+				return -1
+			}
+			isNil := -1
+			switch l {
+			case "resolver":
+				isNil = b2i(ev.resolverNil)
+			case "s.router":
+				isNil = b2i(ev.target != "router")
+			case "s.route":
+				isNil = b2i(ev.target != "route")
+			}
+			if isNil < 0 {
+				return -1
+			}
+			if x.Op.String() == "==" {
+				return isNil
+			}
+			return 1 - isNil
+		}
+	}
+	return -1
+}
+
+func b2i(b bool) int {
+	if b {
+		return 1
+	}
+	return 0
+}
+
+// val: "resolver", "none", "nil" or "unknown: …"
+func (ev *resolverEval) val(e ast.Expr) string {
+	switch x := e.(type) {
+	case *ast.ParenExpr:
+		return ev.val(x.X)
+	case *ast.Ident:
+		if x.Name == "resolver" {
+			if ev.resolverNil {
+				return "nil"
+			}
+			return "resolver"
+		}
+		if x.Name == "nil" {
+			return "nil"
+		}
+	case *ast.CompositeLit:
+		if ev.r.Text(x.Type) == "noClientIPResolver" && len(x.Elts) == 0 {
+			return "none"
+		}
+	case *ast.CallExpr:
+		fn := ev.r.Text(x.Fun)
+		if fn == "ClientIPResolver" && len(x.Args) == 1 {
+			return ev.val(x.Args[0])
+		}
+		if fn == "cmp.Or" {
+			for _, a := range x.Args {
+				v := ev.val(a)
+				if strings.HasPrefix(v, "unknown") {
+					return v
+				}
+				if v != "nil" {
+					return v
+				}
+			}
+			return "nil"
+		}
+	}
+	return "unknown: " + strings.Join(strings.Fields(ev.r.Text(e)), " ")
+}
+
+func (ev *resolverEval) block(list []ast.Stmt) {
+	for _, st := range list {
+		if ev.done {
+			return
+		}
+		ev.stmt(st)
+	}
+}
+
+func (ev *resolverEval) stmt(st ast.Stmt) {
+	switch x := st.(type) {
+	case *ast.BlockStmt:
+		ev.block(x.List)
+	case *ast.ReturnStmt:
+		ev.done = true
+	case *ast.IfStmt:
+		if x.Init != nil {
+			ev.value, ev.done = "unknown: "+strings.Join(strings.Fields(ev.r.Text(x.Init)), " "), true
+			return
+		}
+		switch ev.cond(x.Cond) {
+		case 1:
+			ev.block(x.Body.List)
+		case 0:
+			if x.Else != nil {
+				ev.stmt(x.Else)
+			}
+		default:
+			ev.value, ev.done = "unknown: "+strings.Join(strings.Fields(ev.r.Text(x.Cond)), " "), true
+		}
+	case *ast.AssignStmt:
+		for i, l := range x.Lhs {
+			tgt, fld, ok := optFieldOf(l)
+			if !ok || fld != "clientip" || i >= len(x.Rhs) {
+				ev.value, ev.done = "unknown: "+strings.Join(strings.Fields(ev.r.Text(x)), " "), true
+				return
+			}
+			if tgt != ev.target {
+				// a write through the nil side of the sealed option would panic; the conditions above must exclude it
+				ev.value, ev.done = "unknown: write to s."+tgt+" while it is nil", true
+				return
+			}
+			ev.value = ev.val(x.Rhs[i])
+		}
+	default:
+		ev.value, ev.done = "unknown: "+strings.Join(strings.Fields(ev.r.Text(st)), " "), true
+	}
 }
